@@ -4,6 +4,7 @@ import (
 	"go/ast"
 	"go/token"
 	"go/types"
+	"golang.org/x/tools/go/ssa"
 	"strings"
 )
 
@@ -455,93 +456,115 @@ func (c *Ctx) fieldOf(e ast.Expr) *types.Var {
 	return nil
 }
 
-// fieldStartsNonZero: every composite literal of the struct that owns f gives f
-// a constant other than zero (a sentinel no key takes), and there is at least
-// one such literal.
+// fieldStartsNonZero: every function that creates an object of the struct that
+// owns f (a composite literal) also gives f a constant other than zero - in the
+// literal, by an assignment, or through a method of the object that stores a
+// non-zero constant (or its parameter, given a non-zero constant) into f: a
+// sentinel no key takes.  There is at least one such function.
 func (c *Ctx) fieldStartsNonZero(f *types.Var) (bool, string) {
-	lits, unset, firstUnset, completed := 0, "", "", 0
-	var unsetAt []*ast.CompositeLit
-	for _, file := range c.Root.Syntax {
-		unset = ""
-		ast.Inspect(file, func(n ast.Node) bool {
-			cl, ok := n.(*ast.CompositeLit)
-			if !ok {
-				return true
+	ownsF := func(t types.Type) bool {
+		if p, ok := t.Underlying().(*types.Pointer); ok {
+			t = p.Elem()
+		}
+		var owns func(t types.Type, depth int) bool
+		owns = func(t types.Type, depth int) bool {
+			st, ok := t.Underlying().(*types.Struct)
+			if !ok || depth > 3 {
+				return false
 			}
-			st, ok := c.Info.TypeOf(cl).Underlying().(*types.Struct)
-			if !ok {
-				return true
-			}
-			owns := false
 			for i := 0; i < st.NumFields(); i++ {
-				if st.Field(i) == f {
-					owns = true
+				// directly, or inside a struct held by value
+				if st.Field(i) == f || owns(st.Field(i).Type(), depth+1) {
+					return true
 				}
 			}
-			if !owns {
-				return true
-			}
-			lits++
-			set := false
-			for _, el := range cl.Elts {
-				kv, ok := el.(*ast.KeyValueExpr)
-				if !ok {
-					continue
-				}
-				if id, ok := kv.Key.(*ast.Ident); ok && c.Info.Uses[id] == f {
-					if tv, ok := c.Info.Types[kv.Value]; ok && tv.Value != nil && tv.Value.String() != "0" && tv.Value.String() != `""` {
-						set = true
+			return false
+		}
+		return owns(t, 0)
+	}
+	nonZeroConst := func(v ssa.Value) bool {
+		k, ok := stripConv(v).(*ssa.Const)
+		return ok && k.Value != nil && k.Value.String() != "0" && k.Value.String() != `""` && k.Value.String() != "false"
+	}
+	isF := func(addr ssa.Value) bool {
+		fa, ok := addr.(*ssa.FieldAddr)
+		if !ok {
+			return false
+		}
+		_, fv := fieldAddrInfo(fa)
+		return fv == f
+	}
+	// storesF: fn stores a non-zero constant into f, directly or through a callee (one level
+	// more); a stored parameter counts when the call passes a non-zero constant for it
+	var storesF func(fn *ssa.Function, args []ssa.Value, depth int) bool
+	storesF = func(fn *ssa.Function, args []ssa.Value, depth int) bool {
+		if fn == nil || fn.Blocks == nil {
+			return false
+		}
+		for _, b := range fn.Blocks {
+			for _, ins := range b.Instrs {
+				switch x := ins.(type) {
+				case *ssa.Store:
+					if !isF(x.Addr) {
+						continue
 					}
-				}
-			}
-			if !set {
-				unset = c.pos(cl.Pos())
-				unsetAt = append(unsetAt, cl)
-			}
-			return true
-		})
-		// a literal that leaves f out is completed by `x.f = <non-zero constant>` in the same function
-		for _, cl := range unsetAt {
-			for _, d := range file.Decls {
-				fd, ok := d.(*ast.FuncDecl)
-				if !ok || fd.Body == nil || cl.Pos() < fd.Pos() || cl.End() > fd.End() {
-					continue
-				}
-				ast.Inspect(fd.Body, func(n ast.Node) bool {
-					as, ok := n.(*ast.AssignStmt)
-					if !ok || len(as.Lhs) != len(as.Rhs) {
+					if nonZeroConst(x.Val) {
 						return true
 					}
-					for i, l := range as.Lhs {
-						sel, ok := l.(*ast.SelectorExpr)
-						if !ok || c.Info.Uses[sel.Sel] != f || as.Pos() < cl.End() {
-							continue
-						}
-						if tv, ok := c.Info.Types[as.Rhs[i]]; ok && tv.Value != nil && tv.Value.String() != "0" && tv.Value.String() != `""` {
-							completed++
+					for pi, prm := range fn.Params {
+						if stripConv(x.Val) == ssa.Value(prm) && args != nil && pi < len(args) && nonZeroConst(args[pi]) {
+							return true
 						}
 					}
-					return true
-				})
+				case *ssa.Call:
+					if sc := x.Call.StaticCallee(); sc != nil && c.inRoot(sc) && depth < 3 && sc != fn {
+						// constants of this frame's parameters are passed on
+						cargs := make([]ssa.Value, len(x.Call.Args))
+						for i, a := range x.Call.Args {
+							cargs[i] = a
+							for pi, prm := range fn.Params {
+								if stripConv(a) == ssa.Value(prm) && args != nil && pi < len(args) {
+									cargs[i] = args[pi]
+								}
+							}
+						}
+						if storesF(sc, cargs, depth+1) {
+							return true
+						}
+					}
+				}
 			}
 		}
-		if completed >= len(unsetAt) {
-			unset = ""
+		return false
+	}
+	creators, bad := 0, ""
+	for _, fn := range c.srcFns {
+		creates := token.NoPos
+		for _, b := range fn.Blocks {
+			for _, ins := range b.Instrs {
+				if al, ok := ins.(*ssa.Alloc); ok && ownsF(al.Type()) && (al.Heap || al.Comment == "complit") {
+					if _, isStruct := al.Type().Underlying().(*types.Pointer).Elem().Underlying().(*types.Struct); isStruct {
+						creates = al.Pos()
+					}
+				}
+			}
 		}
-		unsetAt, completed = nil, 0
-		if unset != "" {
-			firstUnset = unset
+		if creates == token.NoPos {
+			continue
+		}
+		creators++
+		if !storesF(fn, nil, 0) {
+			bad = c.pos(creates)
 		}
 	}
-	unset = firstUnset
-	return lits > 0 && unset == "", unset
+	return creators > 0 && bad == "", bad
 }
 
 func init() {
 	register(&Rule{
 		Name:   "MEMO-PRIMED",
 		ZeroOK: true, // how many keyed reloads exist is a matter of style (a refactoring into runs has none); the controls keep the matcher alive
-		Doc:   "a value that depends on a key (the dictionary of a field, the decoded chunk of a chunk number) is reloaded only when the key differs from the remembered one: `if key != last { value = load(key) }`. The first round has nothing remembered, so the test is also true then: a further disjunct names the value, the remembered key, their owner or the loop's first index (`|| value == nil`, `|| i == 0`), or the remembered key starts at a constant no key takes. A remembered key that starts at the zero value of its type with the value unset skips the load for the key that equals that zero value (the field named \"\", chunk 0)",
+		Doc:    "a value that depends on a key (the dictionary of a field, the decoded chunk of a chunk number) is reloaded only when the key differs from the remembered one: `if key != last { value = load(key) }`. The first round has nothing remembered, so the test is also true then: a further disjunct names the value, the remembered key, their owner or the loop's first index (`|| value == nil`, `|| i == 0`), or the remembered key starts at a constant no key takes. A remembered key that starts at the zero value of its type with the value unset skips the load for the key that equals that zero value (the field named \"\", chunk 0)",
 		Run: func(c *Ctx, scope string, r *Report) {
 			for _, s := range c.memoSites() {
 				obj := c.Info.Defs[s.fn.Name]
